@@ -6,6 +6,7 @@ import (
 	"fmt"
 	"os"
 	"path/filepath"
+	"regexp"
 	"sort"
 	"strconv"
 	"strings"
@@ -111,6 +112,8 @@ type target struct {
 	c  *Contract
 	u  *Unit
 }
+
+var labelOrdinal = regexp.MustCompile(`#post\(\d+\)\[`)
 
 func cmdCheck(args []string) int {
 	fs := flag.NewFlagSet("check", flag.ExitOnError)
@@ -268,7 +271,15 @@ func cmdCheck(args []string) int {
 	if *only == "" {
 		if b, err := os.ReadFile(expectFile); err == nil {
 			want := strings.Split(strings.TrimSpace(string(b)), "\n")
-			missing := diff(want, names)
+			// a labelled clause is identified by its label, not by its position among the clauses
+			norm := func(xs []string) []string {
+				out := make([]string, len(xs))
+				for i, x := range xs {
+					out[i] = labelOrdinal.ReplaceAllString(x, "#post[")
+				}
+				return out
+			}
+			missing := diff(norm(want), norm(names))
 			if len(missing) > 0 {
 				// obligations that existed on the pinned tree are gone: report, they count as failed
 				expectNote = fmt.Sprintf("%d expected obligations are no longer generated: %s", len(missing), strings.Join(missing, "; "))
@@ -420,7 +431,7 @@ func cmdCheck(args []string) int {
 		"termination is not proved unless a decreases clause is present")
 	if *verbose {
 		for _, r := range reports {
-			fmt.Fprintf(os.Stderr, "%-14s %-8s %6.2fs %s\n", r.Status, r.Solver, r.Secs, r.Name)
+			fmt.Fprintf(os.Stderr, "%-14s %-8s %6.2fs %s  @%s\n", r.Status, r.Solver, r.Secs, r.Name, r.Pos)
 		}
 	}
 	ev := map[string]any{
